@@ -51,6 +51,7 @@ ParentsOf(p, t) ==
   CASE p.pat = 1 -> {}
     [] p.pat = 2 -> IF t = 1 THEN {} ELSE IF t = 118 THEN {1} ELSE {118}
     [] p.pat = 3 -> IF t = 1 THEN {} ELSE IF t = 118 THEN {1} ELSE {1, 118}
+    [] p.pat = 4 -> IF t = 1 THEN {} ELSE {1}          \* as many parents as pattern 2, but another one ("moved" terms)
 
 Ont(p) ==
   LET ids  == Sorted(TermIds(p))
